@@ -325,8 +325,7 @@ class Engine:
                 return v            # provably representable on this path: the conversion is the identity
             return self.wrap(v, t)  # modular (unsigned) / implementation-defined (signed narrowing: two's complement)
         if ck == 'IntegralToFloating':
-            self.assumptions.add('int -> double conversion is the exact embedding into the reals (exact in IEEE-754 for |x| < 2^53)')
-            return z3.ToReal(v)
+            return self.int_to_double(v, st)
         if ck == 'FloatingToIntegral':
             # [conv.fpint]: truncation toward zero; UB unless the truncated value is representable
             tr = z3.If(v >= 0, z3.ToInt(v), -z3.ToInt(-v))
@@ -452,12 +451,25 @@ class Engine:
         ref.set(st, r)
         return r
 
+    def int_to_double(self, v, st):
+        """int -> double: exact up to 2^53 in magnitude; beyond that the result is some real within the relative
+        error 2^-53 of round-to-nearest (an over-approximation: monotonicity of rounding is not used)"""
+        lim = 1 << 53
+        if self.valid(st, z3.And(v >= -lim, v <= lim), 1000):
+            return z3.ToReal(v)
+        self.assumptions.add('int -> double conversion beyond 2^53 is modelled as any real within relative error 2^-53 (round to nearest)')
+        r = self.fresh('rounded', z3.RealSort())
+        x = z3.ToReal(v)
+        eps = z3.RealVal(1) / z3.RealVal(lim)
+        st.pc.append(z3.If(z3.And(v >= -lim, v <= lim), r == x,
+                           z3.If(v >= 0, z3.And(r >= x * (1 - eps), r <= x * (1 + eps)), z3.And(r <= x * (1 - eps), r >= x * (1 + eps)))))
+        return r
+
     def convert(self, v, frm, to, st, n):
         if frm == to:
             return v
         if frm[0] == 'int' and to[0] in ('double', 'float'):
-            self.assumptions.add('int -> double conversion is the exact embedding into the reals (exact in IEEE-754 for |x| < 2^53)')
-            return z3.ToReal(v)
+            return self.int_to_double(v, st)
         if frm[0] in ('double', 'float') and to[0] == 'int':
             tr = z3.If(v >= 0, z3.ToInt(v), -z3.ToInt(-v))
             self.in_range(st, tr, to, 'double -> integer conversion', n)
@@ -526,6 +538,15 @@ class Engine:
             idx = self.ev(args[1], st)
             self.oblige(st, z3.And(idx >= 0, idx < base.get(st).size), 'vector index in range', 'cxx_check', n)
             return base.extend(('index', idx))
+        if k == 'CXXMemberCallExpr':
+            me = n['inner'][0]
+            while me['kind'] in ('ImplicitCastExpr', 'ParenExpr'):
+                me = self.only(me)
+            if me.get('name') in ('front', 'back'):
+                base = self.lv(self.only(me), st)
+                v = base.get(st)
+                self.oblige(st, v.size > 0, '%s() of a non-empty vector' % me['name'], 'cxx_check', n)
+                return base.extend(('index', z3.IntVal(0) if me['name'] == 'front' else v.size - 1))
         raise Unsupported('vcgen: lvalue %s' % k)
 
     def valid(self, st, cond, ms=2000):
@@ -598,6 +619,36 @@ class Engine:
                 return v.size
             if name == 'empty':
                 return v.size == 0
+            if name in ('front', 'back'):
+                self.oblige(st, v.size > 0, '%s() of a non-empty vector' % name, 'cxx_check', n)
+                return v.at(z3.IntVal(0) if name == 'front' else v.size - 1)
+            if name == 'at':
+                idx = self.ev(args[0], st)
+                a_, b_ = st.fork(), st
+                # at() throws std::out_of_range instead of being undefined: modelled as an exceptional path
+                raise Unsupported('vcgen: vector::at (use operator[] contracts)')
+            if name == 'clear':
+                nv = v.copy()
+                nv.size = z3.IntVal(0)
+                ref.set(st, nv)
+                return None
+            if name == 'pop_back':
+                self.oblige(st, v.size > 0, 'pop_back() of a non-empty vector', 'cxx_check', n)
+                nv = v.copy()
+                nv.size = v.size - 1
+                ref.set(st, nv)
+                return None
+            if name in ('push_back', 'emplace_back') and len(args) == 1:
+                x = self.ev(args[0], st)
+                nv = v.copy()
+                if isinstance(x, Obj):
+                    for p_ in nv.arrays:
+                        nv.arrays[p_] = z3.Store(nv.arrays[p_], nv.off + nv.size, self.path_get(x, p_))
+                else:
+                    nv.arrays[''] = z3.Store(nv.arrays[''], nv.off + nv.size, x)
+                nv.size = v.size + 1
+                ref.set(st, nv)
+                return None
             if name in ('begin', 'cbegin'):
                 return (ref, z3.IntVal(0))
             if name in ('end', 'cend'):
